@@ -366,12 +366,26 @@ def compare(cfg, impl, model):
     return None
 
 
+def diff_kinds(cfg, impl, model):
+    """kinds (first word) of all canonical lines on which the two sides differ, as multisets"""
+    import collections
+    if any(l.startswith(("CRASH", "EXHAUSTED")) for l in impl + model):
+        return set()
+    m = collections.Counter(strip_const_draws(cfg, canon_model(model)))
+    i = collections.Counter(strip_const_draws(cfg, impl))
+    return {l.split()[0] for l in list((i - m).keys()) + list((m - i).keys()) if l}
+
+
 def run_batch(cfgs):
     impls = []
     for c in cfgs:
         impls.append(run_impl(c))
     outs = common.run_driver("".join(model_text(c) for c in cfgs))
-    return [dict(case=c, impl=i, model=m, dis=compare(c, i, m)) for c, i, m in zip(cfgs, impls, outs)]
+    res = []
+    for c, i, m in zip(cfgs, impls, outs):
+        d = compare(c, i, m)
+        res.append(dict(case=c, impl=i, model=m, dis=d, kinds=diff_kinds(c, i, m) if d else set()))
+    return res
 
 
 # ------------------------------------------------------------------ generation
